@@ -33,6 +33,10 @@ TINY = [
     {"name": "1pub_1sub_exact", "pre": [], "pubs": [[["jobs.a", 0], ["jobs.a", 1]]], "subs": ["jobs.a"]},
     {"name": "2pub_1sub_wildcard", "pre": ["jobs.b"], "pubs": [[["jobs.a", 0]], [["jobs.b", 0]]], "subs": ["jobs.*"]},
     {"name": "prefix_related_channels", "pre": ["jobs.1"], "pubs": [[["jobs.10", 0], ["jobs.1", 1]]], "subs": ["jobs.1"]},
+    # a consumer that takes one message and leaves (the queue master's pattern): the rest stays deliverable
+    {"name": "early_break_consumer", "pre": [], "pubs": [[["jobs.a", 0], ["jobs.a", 1], ["jobs.a", 2]]], "subs": [{"pat": "jobs.a", "take": 1}]},
+    # fnmatch character classes; one channel is literally named like the pattern
+    {"name": "char_class_pattern", "pre": ["jobs.a", "jobs.[ab]"], "pubs": [[["jobs.b", 0], ["jobs.c", 0]]], "subs": ["jobs.[ab]"]},
     {"name": "2pub_two_new_channels", "pre": [], "pubs": [[["jobs.a", 0], ["jobs.b", 1]], [["jobs.b", 0], ["jobs.a", 1]]], "subs": []},
 ]
 
@@ -56,16 +60,31 @@ def run_schedule(scn: Dict[str, Any], choices: List[int]) -> Dict[str, Any]:
                     transport.publish(ch, {"ch": ch, "pub": pi, "seq": seq}, {})
             fns.append(pub)
             published += [{"ch": ch, "pub": pi, "seq": seq} for ch, seq in msgs]
-        for si, pat in enumerate(scn.get("subs", [])):
-            def sub(si=si, pat=pat):
-                for msg in transport.subscribe(pat):
+        for si, spec in enumerate(scn.get("subs", [])):
+            def sub(si=si, spec=spec):
+                pat, take = _pat(spec), (None if isinstance(spec, str) else spec.get("take"))
+                it = transport.subscribe(pat)
+                for msg in it:
                     received[si].append(msg.data)
+                    if take is not None and len(received[si]) >= take:
+                        break  # the consumer leaves early and closes its subscription
+                it.close()
             fns.append(sub)
         sched.run(fns)
-        drained = [m.data for m in transport.subscribe("*")] if not sched.deadlock and not sched.errors else []
+        late: List[List[Dict[str, Any]]] = []
+        drained = []
+        if not sched.deadlock and not sched.errors:
+            # sequential epilogue: a fresh subscription per pattern drains whatever still matches it, then "*" takes the rest
+            for spec in scn.get("subs", []):
+                late.append([m.data for m in transport.subscribe(_pat(spec))])
+            drained = [m.data for m in transport.subscribe("*")]
     finally:
         im.threading = real_threading
-    return {"sched": sched, "published": published, "received": received, "drained": drained}
+    return {"sched": sched, "published": published, "received": received, "drained": drained, "late": late}
+
+
+def _pat(spec: Any) -> str:
+    return spec if isinstance(spec, str) else spec["pat"]
 
 
 def _key(d: Dict[str, Any]) -> Tuple[str, int, int]:
@@ -88,7 +107,7 @@ def judge(scn: Dict[str, Any], res: Dict[str, Any], col: Collector, family: str)
     if sched.errors:
         col.add("exception_in_thread", dict(feats0, error=sched.errors[0].split(":")[1].strip() if ":" in sched.errors[0] else "?"), case, sched.errors)
         return
-    got = Counter(_key(d) for lst in res["received"] + [res["drained"]] for d in lst)
+    got = Counter(_key(d) for lst in res["received"] + res.get("late", []) + [res["drained"]] for d in lst)
     want = Counter(_key(d) for d in res["published"])
     lost = want - got
     dup = got - want
@@ -96,7 +115,7 @@ def judge(scn: Dict[str, Any], res: Dict[str, Any], col: Collector, family: str)
         col.add("message_lost", feats0, case, sorted(lost.elements()), sorted(want.elements()))
     if dup:
         col.add("message_duplicated_or_invented", feats0, case, sorted(dup.elements()), sorted(want.elements()))
-    for ci, lst in enumerate(res["received"] + [res["drained"]]):
+    for ci, lst in enumerate(res["received"] + [res["drained"]]):  # (late epilogue lists are sequential by construction)
         last: Dict[Tuple[str, int], int] = {}
         for d in lst:
             k = (d["ch"], d["pub"])
@@ -104,11 +123,17 @@ def judge(scn: Dict[str, Any], res: Dict[str, Any], col: Collector, family: str)
                 col.add("channel_order_violated", dict(feats0, consumer="drain" if ci == len(res["received"]) else "subscriber"), case, lst)
                 break
             last[k] = d["seq"]
-    for si, pat in enumerate(scn.get("subs", [])):
-        for d in res["received"][si]:
+    for si, spec in enumerate(scn.get("subs", [])):
+        pat = _pat(spec)
+        for d in res["received"][si] + (res["late"][si] if si < len(res.get("late", [])) else []):
             if not fnmatch.fnmatch(d["ch"], pat):
                 col.add("subscription_yielded_non_matching_channel", dict(feats0, pattern=pat), case, d, pat)
                 break
+        # what the final "*" subscription still found must not match this pattern: the pattern's own (sequential,
+        # exhaustive) subscription ran before it and "drains all matching messages"
+        left = [d for d in res["drained"] if fnmatch.fnmatch(d["ch"], pat)]
+        if left:
+            col.add("matching_message_not_yielded_by_exhaustive_subscription", dict(feats0, pattern=pat), case, left, [])
 
 
 def enumerate_scenario(scn: Dict[str, Any], bound: int, col: Collector, cap: int = 200000) -> int:
@@ -127,7 +152,7 @@ def enumerate_scenario(scn: Dict[str, Any], bound: int, col: Collector, cap: int
 
 @st.composite
 def c14_case(draw):
-    chans = ["jobs.a", "jobs.b", "other.c", "jobs.ab", "jobs.a.cfg"]
+    chans = ["jobs.a", "jobs.b", "other.c", "jobs.ab", "jobs.a.cfg", "jobs.[ab]"]
     pre = draw(st.lists(st.sampled_from(chans), max_size=2, unique=True))
     npubs = draw(st.integers(2, 3))
     pubs = []
@@ -140,7 +165,8 @@ def c14_case(draw):
             seqs[ch] = seqs.get(ch, -1) + 1
             msgs.append([ch, seqs[ch]])
         pubs.append(msgs)
-    subs = draw(st.lists(st.sampled_from(["jobs.a", "jobs.*", "*", "other.c", "*.b", "jobs.?", "jobs.a*", "jobs.*.cfg"]), min_size=1, max_size=2))
+    subs = draw(st.lists(st.sampled_from(["jobs.a", "jobs.*", "*", "other.c", "*.b", "jobs.?", "jobs.a*", "jobs.*.cfg", "jobs.[ab]", "jobs.[!a]", "[jo]*"]), min_size=1, max_size=2))
+    subs = [({"pat": p, "take": draw(st.integers(1, 2))} if draw(st.sampled_from([False, False, True])) else p) for p in subs]
     choices = draw(st.lists(st.integers(0, 3), max_size=60))
     # bias towards few preemptions: most decision points keep the current thread
     mask = draw(st.lists(st.integers(0, 5), min_size=len(choices), max_size=len(choices)))
@@ -195,7 +221,7 @@ def valid(case: Any) -> bool:
         s = case["scenario"]
         return (isinstance(s["pubs"], list) and len(s["pubs"]) >= 1 and all(isinstance(m, list) and len(m) >= 1 for m in s["pubs"])
                 and all(isinstance(x, list) and len(x) == 2 and isinstance(x[0], str) and isinstance(x[1], int) for m in s["pubs"] for x in m)
-                and all(isinstance(c, int) and not isinstance(c, bool) and c >= 0 for c in case["choices"]) and all(isinstance(p, str) and p for p in s.get("subs", []))
+                and all(isinstance(c, int) and not isinstance(c, bool) and c >= 0 for c in case["choices"]) and all((isinstance(p, str) and p) or (isinstance(p, dict) and isinstance(p.get("pat"), str) and p["pat"] and isinstance(p.get("take"), int) and p["take"] >= 1) for p in s.get("subs", []))
                 and all(isinstance(p, str) and p for p in s.get("pre", [])))
     except Exception:
         return False
